@@ -66,7 +66,7 @@ def gen_rules(rnd, k, profile):
         if profile == 'contract':
             out = rnd.choice([0, 0, 0, 1, 2])
         else:
-            out = rnd.choice([0, 0, 0, 1, 3, -9, 'timeout', 77])
+            out = rnd.choice([0, 0, 0, 1, 3, -9, 'timeout', 77, 'norun'])
         rules.append((atoms, out))
     if rnd.random() < 0.5:
         rules.append(([], 0 if rnd.random() < 0.6 else 1))
@@ -142,3 +142,40 @@ def gen_group(rnd, profile='faults', k=None):
                    'last': [dict(ps[0])] if rnd.random() < 0.5 else []}
     sc['cfg']['no_cache'] = rnd.random() < 0.3
     return sc
+
+
+def gen_revisit(rnd, k=None, alphabet='ab'):
+    """Tiny contents over a tiny alphabet and a long sequence drawn from a pool of three passes:
+    the same pass meets the same file content (and the same joint contents) again and again —
+    what the pass cache is about."""
+    k = k or rnd.choice([1, 2, 2])
+    names = ['f0.c', 'b/f1.c', 'f2.c'][:k]
+    files = [(names[i], ''.join(rnd.choice(alphabet) for _ in range(rnd.randint(2, 3)))) for i in range(k)]
+
+    def op():
+        r = rnd.random()
+        if r < 0.3:
+            return ('delch', rnd.choice(alphabet))
+        if r < 0.45:
+            return ('del', rnd.randint(0, 2))
+        if r < 0.65:
+            return ('dup', rnd.randint(0, 1))
+        if r < 0.85:
+            return ('swap', rnd.randint(0, 1))
+        return ('set', ''.join(rnd.choice(alphabet) for _ in range(rnd.randint(1, 3))))
+
+    pool = [{'key': i + 1, 'ops': [op() for _ in range(rnd.randint(1, 2))], 'aos': rnd.choice([0, 1]),
+             'maxt': rnd.choice([None, None, None, 1]), 'newfix': None} for i in range(3)]
+    if rnd.random() < 0.3:      # same class and argument, different limit: must be different cache keys
+        pool[1] = dict(pool[0], key=pool[0]['key'], maxt=(1 if pool[0]['maxt'] is None else None))
+    passes = [dict(rnd.choice(pool)) for _ in range(rnd.randint(6, 10))]
+    rules = []
+    for _ in range(rnd.randint(1, 3)):
+        atoms = [(rnd.choice(['has', 'nothas']), rnd.randrange(k), rnd.choice(alphabet)) for _ in range(rnd.randint(1, 2))]
+        rules.append((atoms, rnd.choice([0, 0, 1])))
+    if rnd.random() < 0.5:
+        rules.append(([], rnd.choice([0, 1])))
+    rules = make_interesting(rnd, files, rules)
+    return {'files': files, 'rules': rules, 'passes': passes,
+            'cfg': {'N': rnd.choice([1, 2, 3]), 'no_cache': False},
+            'sched': [rnd.randint(0, 7) for _ in range(rnd.randint(0, 40))]}
